@@ -980,9 +980,12 @@ impl Fails {
 
 /// `twin`: for a configured case, the outcome of the same case constructed in-process around the same
 /// model files with recording predictors (which edges called the predictor, and the rate it returned)
-fn oracle(ctx: &mut Ctx, idx: usize, sp: &Spec, oc: &Outcome, twin: Option<&Outcome>) {
+///
+/// `unc`: for a case with a prediction cache, the outcome of the same case run with the cache switched off
+/// (the predictor is then called on every edge, so the inputs it is handed on every edge are known)
+fn oracle(ctx: &mut Ctx, idx: usize, sp: &Spec, oc: &Outcome, twin: Option<&Outcome>, unc: Option<&Outcome>) {
     let mut fails = Fails(vec![]);
-    oracle_inner(&mut fails, idx, sp, oc, twin);
+    oracle_inner(&mut fails, idx, sp, oc, twin, unc);
     for (key, msg) in fails.0 {
         // a configured case reports a deviation under the configured value that is not in force
         let key = if sp.cfg.is_some() {
@@ -1001,7 +1004,11 @@ fn oracle(ctx: &mut Ctx, idx: usize, sp: &Spec, oc: &Outcome, twin: Option<&Outc
     }
 }
 
-fn oracle_inner(ctx: &mut Fails, idx: usize, sp: &Spec, oc: &Outcome, twin: Option<&Outcome>) {
+fn key_policy(r: &RecSpec) -> Option<FloatCachePolicy> {
+    make_cache(r)
+}
+
+fn oracle_inner(ctx: &mut Fails, idx: usize, sp: &Spec, oc: &Outcome, twin: Option<&Outcome>, unc: Option<&Outcome>) {
     let battery = sp.kind != Kind::Ice;
     if oc.engine_rejected {
         return;
@@ -1084,6 +1091,21 @@ fn oracle_inner(ctx: &mut Fails, idx: usize, sp: &Spec, oc: &Outcome, twin: Opti
     let mut sum_liq = (0.0f64, 0.0f64);
     let mut sum_el = (0.0f64, 0.0f64);
     let mut all_ok = true;
+    // --- the cache must be transparent: what the predictor would be handed on every edge is known from the
+    // run without cache (it depends on the time state only); the cache key of those inputs comes from the
+    // real `float_key_to_int_key`.  An edge all of whose same-key predecessors (same record) were handed
+    // the same inputs must be charged the rate at its own inputs whether it is a hit or a miss; when a
+    // predecessor with the same key was handed different inputs, the recorded finding
+    // predict/cache-key-collision applies instead.
+    let unc_inputs: Vec<Option<(f64, f64)>> = match unc {
+        Some(u) => u.steps.iter().map(|s| match s { Step::Ok(_, _, _, h, _) => *h, Step::Err(_) => None }).collect(),
+        None => vec![],
+    };
+    let policy_main = key_policy(&sp.rec);
+    let policy_sus = sp.sustain.as_ref().and_then(key_policy);
+    let mut used_main: Vec<bool> = vec![];
+    let mut route_collision = false;
+    let same_inputs = |a: (f64, f64), b: (f64, f64)| (a.0 - b.0).abs() <= 1e-9 * a.0.abs().max(b.0.abs()) && a.1 == b.1;
     for (i, step) in oc.steps.iter().enumerate() {
         let (id, d_m) = sp.edges[i];
         let (cur, mut called_main, mut called_sus, handed, mut rate) = match step {
@@ -1127,6 +1149,28 @@ fn oracle_inner(ctx: &mut Fails, idx: usize, sp: &Spec, oc: &Outcome, twin: Opti
                 }
             }
         };
+        let is_main = std::ptr::eq(rec, &sp.rec);
+        // could the cache hold, under this edge's key, a rate computed for different inputs?
+        let collision_possible = if rec.cache.is_some() {
+            let policy = if is_main { policy_main.as_ref() } else { policy_sus.as_ref() };
+            match (policy, unc_inputs.get(i).copied().flatten()) {
+                (Some(p), Some(mine)) => {
+                    let my_key = p.float_key_to_int_key(&[mine.0, mine.1]);
+                    (0..i).any(|k| {
+                        used_main[k] == is_main
+                            && match unc_inputs.get(k).copied().flatten() {
+                                Some(theirs) => p.float_key_to_int_key(&[theirs.0, theirs.1]) == my_key && !same_inputs(mine, theirs),
+                                None => true,
+                            }
+                    })
+                }
+                _ => true,
+            }
+        } else {
+            false
+        };
+        route_collision |= collision_possible;
+        used_main.push(is_main);
         let rec_eu = rec.ru.associated_energy_unit();
         let (fu, p_acc, c_acc) = if electric { (sp.feu, prev.electric, cur.electric) } else { (sp.flu, prev.liquid, cur.liquid) };
         let (e, eabs) = if rec.file.is_some() {
@@ -1157,16 +1201,19 @@ fn oracle_inner(ctx: &mut Fails, idx: usize, sp: &Spec, oc: &Outcome, twin: Opti
             sum_liq = (sum_liq.0 + e_f, sum_liq.1 + eabs * k);
         }
         if !e.is_nan() && !((delta - e_f).abs() <= tol) {
-            let key = if rec.cache.is_some() && !called {
+            let key = if rec.cache.is_some() && !called && !collision_possible {
+                "cache/not-transparent"
+            } else if rec.cache.is_some() && !called {
                 "predict/cache-key-collision"
             } else if sp.cfg.is_some() && (delta - e_f / rec.adj).abs() <= tol {
                 "builder/real-world-adjustment"
             } else {
                 "edge_energy/definition"
             };
+            let note = if key == "cache/not-transparent" { " — a cache hit, and every earlier edge with this cache key was handed the same speed and grade" } else { "" };
             ctx.fail(idx, key, format!(
-                "edge #{} (id {}, {} m, speed {} {}, grade {:?} {}): recorded energy {} {} but rate(speed,grade) x adjustment x length = {} {} (tolerance {})",
-                i, id, d_m, sp.speeds[id], sp.esu, sp.grades.as_ref().map(|g| g[id]), sp.ggu, delta, fu, e_f, fu, tol));
+                "edge #{} (id {}, {} m, speed {} {}, grade {:?} {}): recorded energy {} {} but rate(speed,grade) x adjustment x length = {} {} (tolerance {}){}",
+                i, id, d_m, sp.speeds[id], sp.esu, sp.grades.as_ref().map(|g| g[id]), sp.ggu, delta, fu, e_f, fu, tol, note));
         }
         // PHEV: only electricity with charge remaining, only liquid fuel when empty
         if sp.kind == Kind::Phev {
@@ -1229,12 +1276,25 @@ fn oracle_inner(ctx: &mut Fails, idx: usize, sp: &Spec, oc: &Outcome, twin: Opti
             }
             let cached = sp.rec.cache.is_some() || sp.sustain.as_ref().map(|s| s.cache.is_some()).unwrap_or(false);
             if !((got - want).abs() <= CHAIN_TOL * abs + 1e-300) {
-                let key = if cached {
+                let key = if cached && !route_collision {
+                    "cache/not-transparent"
+                } else if cached {
                     "predict/cache-key-collision"
                 } else {
                     "energy/additivity"
                 };
                 ctx.fail(idx, key, format!("{} after {} edges is {} {} but the per-edge energies sum to {}", name, oc.steps.len(), got, fu, want));
+            }
+        }
+    }
+    // --- with the cache the route must end where it ends without the cache (unless keys collided)
+    if let Some(u) = unc {
+        if all_ok && !route_collision && u.steps.len() == oc.steps.len() && u.steps.iter().all(|s| matches!(s, Step::Ok(..))) {
+            let pairs = [(oc.last.liquid, u.last.liquid, sum_liq.1, sp.flu, sp.kind != Kind::Bev, "energy_liquid"), (oc.last.electric, u.last.electric, sum_el.1, sp.feu, sp.kind != Kind::Ice, "energy_electric")];
+            for (with, without, abs, fu, present, name) in pairs.iter() {
+                if *present && !((with - without).abs() <= 1e-6 * abs + 1e-300) {
+                    ctx.fail(idx, "cache/not-transparent", format!("{} after {} edges is {} {} with the prediction cache and {} {} without it (no two edges with the same cache key were handed different inputs)", name, oc.steps.len(), with, fu, without, fu));
+                }
             }
         }
     }
@@ -1848,7 +1908,20 @@ pub fn run(ctx: &mut Ctx) -> &'static str {
             Ok((out, oc)) => {
                 ctx.emit(idx, line.clone(), out);
                 count_outcome(ctx, sp, &oc, &line);
-                oracle(ctx, idx, sp, &oc, None);
+                // the same case with the cache switched off
+                let cached = sp.rec.cache.is_some() || sp.sustain.as_ref().map(|r| r.cache.is_some()).unwrap_or(false);
+                let unc = if cached && !oc.rejected {
+                    let mut nc = sp.clone();
+                    nc.rec.cache = None;
+                    if let Some(r) = nc.sustain.as_mut() {
+                        r.cache = None;
+                    }
+                    std::panic::catch_unwind(std::panic::AssertUnwindSafe(|| execute(&nc, &Probes::new()).1)).ok()
+                } else {
+                    None
+                };
+                if unc.is_some() { ctx.count("rerun_without_cache"); }
+                oracle(ctx, idx, sp, &oc, None, unc.as_ref());
             }
         }
     }
@@ -1902,11 +1975,11 @@ pub fn run(ctx: &mut Ctx) -> &'static str {
                 if cfg.bad_coord { ctx.count("cfg_haversine_error"); }
                 if let Some(k) = cfg.malformed { ctx.count(&format!("cfg_malformed_{:02}", k)); }
                 count_outcome(ctx, &sp, &oc, &line);
-                oracle(ctx, idx, &sp, &oc, Some(&twin));
+                oracle(ctx, idx, &sp, &oc, Some(&twin), None);
                 // the two constructions of the real code must agree (the speed file reader alone rejects
                 // a negative speed, the in-process engine is a struct literal)
                 let valid_name = matches!(&cfg.name, NameQuery::Name(k) if cfg.library.iter().any(|(id, _)| id == k));
-                if valid_name && cfg.malformed.is_none() && !sp.speeds.iter().any(|x| *x < 0.0) && strip_direct(&twin_out) != out.splitn(2, " | ").nth(1).unwrap_or("") {
+                if valid_name && cfg.malformed.is_none() && !sp.speeds.iter().any(|x| *x < 0.0) && strip_direct(&twin_out) != (if out.starts_with("built ") { out.splitn(2, " | ").nth(1).unwrap_or("") } else { out.as_str() }) {
                     ctx.fail(idx, "builder/in-process-twin", format!("the model built from configuration gives `{}` where the same vehicle constructed in-process gives `{}`", out.chars().take(300).collect::<String>(), strip_direct(&twin_out).chars().take(300).collect::<String>()));
                 }
             }
